@@ -42,8 +42,8 @@ def run(ctx):
     r = tlc_expect_ok(tlc("MC_TrustPolicy", "MC_TrustPolicy.cfg", name="mc_trust", workers=4, timeout=600), "MC TrustPolicy")
     ctx.add_tlc(r)
     vecs = tlc_expect_ok(tlc("MC_TrustPolicy", "MC_TrustPolicy_emit.cfg", name="trust_emit", workers=2, timeout=600, coverage=False), "emit").printed("VEC")
-    if len(vecs) != 864:
-        raise ToolError("expected 864 decisions, got %d" % len(vecs))
+    if len(vecs) != 1248:
+        raise ToolError("expected 1248 decisions, got %d" % len(vecs))
     if not any(v["decision"] == "trusted" for v in vecs) or not any(v["decision"] == "untrusted" for v in vecs):
         raise ToolError("vacuity: decisions are not mixed")
     kinds = [("ec256", "es256")] if ctx.quick else [("ec256", "es256"), ("rsa2048", "ps256"), ("ed25519", "ed25519")]
@@ -78,8 +78,9 @@ def run(ctx):
                     trust["user_anchors"] = root_pem
                 elif v["anchor"] == "issuer":
                     trust["trust_anchors"] = open(w["issuer"]).read()
-                if v["allow"]:
-                    trust["allowed_list"] = open(w["leaf"]).read() if (ctx.quick or keykind == "ec256") else K.cert_hash_b64(w["leaf"]) + "\n"
+                if v["allow"] != "none":
+                    which = w["leaf"] if v["allow"] == "leaf" else w["issuer"]
+                    trust["allowed_list"] = open(which).read() if (ctx.quick or keykind == "ec256") else K.cert_hash_b64(which) + "\n"
                 if v["ekuConfig"] == "extended":
                     trust["trust_config"] = DEFAULT_EKUS + SERVER_AUTH + "\n"
                 reads.append({"name": len(index), "settings": {"trust": trust, "verify": {"verify_trust": bool(v["verifyTrust"])}}})
@@ -119,5 +120,5 @@ def run(ctx):
     ctx.cov["traces_validated_against_impl"] += total
     ctx.cov["evaluations"] = total
     ctx.cov["distinct_nontrivial"] = sum(1 for v in vecs if v["verifyTrust"])
-    ctx.cov["rule"] = "all 864 decisions of the TrustPolicy table x %d key type(s): 36 signings (hierarchy shape x supplied form) each read under its trust configurations; non-trivial = decisions with trust verification on" % len(kinds)
+    ctx.cov["rule"] = "all 1248 decisions of the TrustPolicy table x %d key type(s): 36 signings (hierarchy shape x supplied form) each read under its trust configurations; non-trivial = decisions with trust verification on" % len(kinds)
     ctx.sample({"vector": vecs[0]})
